@@ -9,7 +9,7 @@ git -C "$WT" checkout -q --detach $(git -C /repo rev-parse HEAD); git -C "$WT" c
 cd "$WT"
 PYTHONPATH=$WT:$WT/pdks/Sky130:$WT/pdks/Gf180:$WT/pdks/Asap7 /venv/bin/python "$SEED/demo.py" >/dev/null 2>&1; clean_rc=$?
 git apply "$SEED/patch.diff" || { echo "patch does not apply"; exit 3; }
-suite=$(PYTHONPATH=$WT /venv/bin/python -m pytest -q -p no:cacheprovider 2>&1 | tail -1)
+suite=$(PYTHONPATH=$WT:$WT/pdks/Sky130:$WT/pdks/Gf180:$WT/pdks/Asap7 /venv/bin/python -m pytest -q -p no:cacheprovider 2>&1 | tail -1)
 PYTHONPATH=$WT:$WT/pdks/Sky130:$WT/pdks/Gf180:$WT/pdks/Asap7 /venv/bin/python "$SEED/demo.py" >/dev/null 2>&1; bug_rc=$?
 git checkout -- .
 echo "suite_with_patch: $suite"
